@@ -285,11 +285,19 @@ class Policy:
         self.drop_receiver = drop_receiver  # host name: drop only for that receiver; None: for all receivers
         self.self_delay_ms = self_delay_ms
 
+    fixed_unicast_ms: Optional[float] = None     # deterministic witnesses: fixed delay for unicast / multicast deliveries
+    fixed_multicast_ms: Optional[float] = None
+    current_is_multicast: bool = True
+
     def plan(self, tx_index: int, sender: Optional[SimHost], receiver_host: str, is_self: bool) -> List[float]:
         """-> list of delays (ms), one per copy delivered; [] = dropped."""
         if self.drop_index is not None and tx_index == self.drop_index:
             if self.drop_receiver is None or self.drop_receiver == receiver_host:
                 return []
+        if self.fixed_unicast_ms is not None and not self.current_is_multicast:
+            return [self.fixed_unicast_ms]
+        if self.fixed_multicast_ms is not None and self.current_is_multicast:
+            return [self.fixed_multicast_ms]
         if is_self and self.self_delay_ms is not None:
             d = self.self_delay_ms
         else:
@@ -348,6 +356,7 @@ class Net:
         self.trace.append(entry)
         if host.partitioned:
             return
+        self.policy.current_is_multicast = multicast
         if multicast:
             if dst_port != PORT:
                 return
